@@ -155,7 +155,7 @@ func cmdFunc(args []string) int {
 				bad++
 			}
 			if *verbose || o.Status != "unsat" {
-				fmt.Printf("  %-8s %-7s %5.2fs %s\n", o.Status, o.Solver, o.TimeS, o.Name)
+				fmt.Printf("  %-8s %-7s %5.2fs %s %s\n", o.Status, o.Solver, o.TimeS, o.Name, o.Meta["pos"])
 			}
 			if o.Status != "unsat" && *dump != "" {
 				os.MkdirAll(*dump, 0o755)
